@@ -65,7 +65,7 @@ def main():
     for kind in ('benign', 'seeded'):
         if which in (kind, 'all'):
             for name in sorted(os.listdir(os.path.join(VERIF, kind))):
-                if os.path.exists(os.path.join(VERIF, kind, name, 'patch.diff')) and (not prefixes or any(name.startswith(p) for p in prefixes)):
+                if os.path.exists(os.path.join(VERIF, kind, name, 'patch.diff')) and (not prefixes or any(name.startswith(p) or (p.startswith("~") and p[1:] in name) for p in prefixes)):
                     jobs.append((kind, name))
     with multiprocessing.Pool(16) as pool:
         results = pool.map(work, jobs, chunksize=1)
